@@ -1,4 +1,7 @@
 import ScriggoV.Lemmas.LexerPosCode
+import ScriggoV.Lemmas.PositionSpec
+import ScriggoV.Lemmas.LexAdvance
+import ScriggoV.Gen.LexAdvance
 import ScriggoV.Props.C04
 /-! # C21 — build errors point at a real location in the reported file
 
@@ -20,13 +23,25 @@ and, without any hypothesis on the bytes (`_partial`: the sub-scanners named in 
                              its start offset and leaves the lexer at the position of its end;
 * `skipRawContent_positions` the content of `{% raw %}` leaves the lexer at the right position;
 * `blockComment_positions`   a `/* … */` comment in a code region (a first piece of `CodePosSpec`).
+Over the position bookkeeping *extracted from lexer.go* (`Gen/LexAdvance`, regenerated on every
+check: every path through one iteration of `scan`'s main loop and through `scanCodeBlock`, as a
+guard on the bytes and the statements that move `p`, `l.column`, `l.line`):
+* `skips_account_for_bytes`  on every path, under the path's guard, the statements move line and column
+                             exactly as the specification does over the bytes the path steps over —
+                             a byte stepped over without being looked at must be pinned by the guard
+                             (`\\` + quote, `</script`, `<![CDA`, `https://`, four spaces, …); the one
+                             exception is the CR after LF (`lfcr_segment_refuted`, known finding);
+* `rune_steps_not_newline`   a rune stepped over as a whole does not start with a newline;
+* `quote_values`             `quote` is only ever 0, `"` or `'`.
+The specification in closed form: `lineCol_spec` (line = 1 + newlines before the offset, column = 1 +
+characters since the last newline), and `token_lines_count_newlines`.
 Covered by the correspondence harness and the Go oracles only: `lexCode` and its literal lexers
 (hypothesis `CodePosSpec` of the main theorem), the shebang line.
 
 The full statement (every token of every scan) is false of the code: `FullStatement` is refuted
 by `"\n\r{{a}}"` (LF CR is read as one line terminator, known finding `lf-cr-column`). -/
 namespace ScriggoV.Props.C21
-open ScriggoV ScriggoV.Lexer ScriggoV.Gen.LexTables ScriggoV.Spec.Position
+open ScriggoV ScriggoV.Lexer ScriggoV.Gen.LexTables ScriggoV.Spec.Position ScriggoV.Lexer.Advance
 
 /-- the position of a token is the position of its start offset -/
 def TokPosOK (src : Bytes) (t : Tok) : Bool := (t.line, t.col) == lineCol src t.start.toNat
@@ -124,6 +139,109 @@ columns are counted per character, not per byte -/
 theorem blockComment_positions_partial (E : Env) (st st' : St) (loc loc' : CodeLoc)
     (h : codeSlash E st loc (some 0x2a) = .ok (.cont st' loc')) (hp : PosAt E st st.base) : PosAt E st' st'.base :=
   blockComment_pos h hp
+
+/-- the specification in closed form: the line of an offset is 1 + the number of `'\n'` before it; the
+column is 1 + the number of characters (bytes that are not UTF-8 continuation bytes) since the last
+`'\n'` before it — on the first line of a file that starts with a byte order mark the mark is not
+counted -/
+theorem lineCol_spec (src : Bytes) (off : Nat) :
+    (lineCol src off).1 = 1 + (src.take off).count 0x0a ∧
+    (lineCol src off).2 =
+      if (src.take off).count 0x0a = 0 then (if 3 ≤ off ∧ hasBOM src then 0 else 1) + chars (src.take off)
+      else 1 + chars (lastLine (src.take off)) :=
+  Spec.Position.lineCol_spec src off
+
+/-- the line a token carries is 1 + the number of newlines before its start offset (corollary of
+`positions_consistent_partial` and `lineCol_spec`, same hypotheses) -/
+theorem token_lines_count_newlines (U : Unicode) (format : Nat) (nps : Bool) (src : Bytes) (toks : List Tok)
+    (e : Option LexErr) (h : scanTemplate U format nps src = .ok (toks, e))
+    (hbom : hasBOM src = false) (hno : NoLFCR src) (hal : Aligned src) (hns : NoShebang src)
+    (hC : CodePosSpec { text := src, tmpl := true, noParseShow := nps, U := U }) :
+    ∀ t ∈ toks, t.typ ≠ tokenSemicolon → t.line = 1 + (src.take t.start.toNat).count 0x0a := by
+  intro t ht hne
+  have := (positions_consistent_partial U format nps src toks e h hbom hno hal hns hC).1 t ht hne
+  have h1 : t.line = (lineCol src t.start.toNat).1 := by rw [← this]
+  rw [h1, (lineCol_spec src t.start.toNat).1]
+
+/-! ## the bookkeeping extracted from lexer.go -/
+/-- every extracted segment passes the checker, except the CR-after-LF step -/
+theorem segments_checked : Gen.LexAdvance.segs.all (fun s => s.check || s.isLFCR) = true := by decide +kernel
+
+/-- `skips_account_for_bytes`: for every path through one iteration of the main loop of `scan` (and
+through `scanCodeBlock`) as extracted from lexer.go, whatever the source, the offset `p` the path starts
+at and the value of `quote`: if the conditions the path took hold, then the bytes the path advanced
+over are in the source and its `p`/`l.column`/`l.line` statements move (line, column) exactly as
+`Spec.Position.advance` does over those bytes. In particular no path steps over a newline without
+`l.newline()`, and `l.column += k` is only ever applied to `k` characters that are not newlines.
+Excluded: the step over the CR that follows a LF (`Seg.isLFCR`; known finding `lf-cr-column`). -/
+theorem skips_account_for_bytes (s : Seg) (hs : s ∈ Gen.LexAdvance.segs) (hn : s.isLFCR = false)
+    (src : Bytes) (p : Nat) (q : UInt8) (hq : q ∈ quotes) (hg : GuardHolds s.guard src p q) (lc : Nat × Nat) :
+    s.base ≤ (run s.evs (lc, s.base)).2 ∧
+    ((src.drop (p + s.base)).take ((run s.evs (lc, s.base)).2 - s.base)).length = (run s.evs (lc, s.base)).2 - s.base ∧
+    (run s.evs (lc, s.base)).1 = advance ((src.drop (p + s.base)).take ((run s.evs (lc, s.base)).2 - s.base)) lc := by
+  have h := List.all_eq_true.mp segments_checked s hs
+  rw [hn, Bool.or_false] at h
+  exact Seg.check_sound s h hq hg lc
+
+/-- the excluded shape does break the specification: after `"\n\r"` the statements leave the column at 1,
+the specification says 2 -/
+theorem lfcr_segment_refuted :
+    ∃ s : Seg, s.isLFCR = true ∧ GuardHolds s.guard [0x0a, 0x0d] 0 0 ∧
+      (run s.evs ((1, 1), s.base)).1 ≠ advance (([0x0a, 0x0d] : Bytes).take ((run s.evs ((1, 1), s.base)).2 - s.base)) (1, 1) := by
+  refine ⟨{ name := "", base := 0, guard := [.is 0 [.byte 0x0a] true, .is 1 [.byte 0x0d] true],
+            evs := [.adv 1, .newline, .adv 1], handOver := false }, by decide, ?_, by decide⟩
+  intro lit hl
+  simp only [List.mem_cons, List.not_mem_nil, or_false] at hl
+  rcases hl with rfl | rfl
+  · exact ⟨0x0a, rfl, by decide⟩
+  · exact ⟨0x0d, rfl, by decide⟩
+
+theorem runes_checked : Gen.LexAdvance.runeSteps.all RuneStep.check = true := by decide +kernel
+
+/-- `rune_steps_not_newline`: where the main loop steps over a whole rune (`p += size; l.column++`), the
+conditions on the path make its first byte a byte other than a newline -/
+theorem rune_steps_not_newline (r : RuneStep) (hr : r ∈ Gen.LexAdvance.runeSteps)
+    (src : Bytes) (p : Nat) (q : UInt8) (hq : q ∈ quotes) (hg : GuardHolds r.guard src p q) :
+    ∃ c, src[p + r.off]? = some c ∧ c ≠ 0x0a :=
+  RuneStep.check_sound r (List.all_eq_true.mp runes_checked r hr) hq hg
+
+theorem quotes_checked : Gen.LexAdvance.quoteAssigns.all QuoteAssign.check = true := by decide +kernel
+
+/-- `quote_values`: every assignment to `quote` in `scan` assigns 0, `'"'`, or a byte the path's
+conditions make `'"'` or `'\''` (the hypothesis `q ∈ quotes` of the theorems above is an invariant) -/
+theorem quote_values (a : QuoteAssign) (ha : a ∈ Gen.LexAdvance.quoteAssigns)
+    (src : Bytes) (p : Nat) (q : UInt8) (hq : q ∈ quotes) (hg : GuardHolds a.guard src p q) :
+    match a.rhs with
+    | .zero => True
+    | .dq => True
+    | .byte => ∃ c, src[p + a.off]? = some c ∧ c ∈ quotes :=
+  QuoteAssign.check_sound a (List.all_eq_true.mp quotes_checked a ha) hq hg
+
+/-- the guard of the path `case '\\': if p+1 < len(l.src) && l.src[p+1] == quote { p++; l.column++ }`
+followed by the tail of the iteration for a character start -/
+def escGuard : List Lit :=
+  [.inb 0, .is 0 [.byte 0x5c] true, .inb 1, .is 1 [.quote] true, .is 0 [.byte 0x0a] false, .is 0 [.pred .isStartChar] true]
+
+/-- non-vacuity: that path is in the extracted table, is not the excluded shape, its guard holds of
+`\"a` at 0 with `quote = '"'`, and it advances two bytes and two columns -/
+example : ∃ s ∈ Gen.LexAdvance.segs, s.isLFCR = false ∧ GuardHolds s.guard [0x5c, 0x22, 0x61] 0 0x22 ∧
+    run s.evs ((1, 5), s.base) = ((1, 7), 2) := by
+  have h : Gen.LexAdvance.segs.any (fun s => s.guard == escGuard && s.evs == [.adv 1, .col 1, .adv 1, .col 1] &&
+      s.base == 0 && !s.isLFCR) = true := by decide +kernel
+  obtain ⟨s, hs, hc⟩ := List.any_eq_true.mp h
+  simp only [Bool.and_eq_true, beq_iff_eq, Bool.not_eq_true'] at hc
+  obtain ⟨⟨⟨hg, he⟩, hb⟩, hl⟩ := hc
+  refine ⟨s, hs, hl, ?_, by rw [he, hb]; decide⟩
+  rw [hg]
+  intro lit hm
+  simp only [escGuard, List.mem_cons, List.not_mem_nil, or_false] at hm
+  rcases hm with rfl | rfl | rfl | rfl | rfl | rfl
+  · show 0 + 0 < 3; decide
+  · exact ⟨0x5c, rfl, by decide⟩
+  · show 0 + 1 < 3; decide
+  · exact ⟨0x22, rfl, by decide⟩
+  · exact ⟨0x5c, rfl, by decide⟩
+  · exact ⟨0x5c, rfl, by decide⟩
 
 /-- ASCII text is aligned -/
 theorem aligned_of_ascii {t : Bytes} (h : ∀ b ∈ t, b < 0x80) : Aligned t := by
